@@ -73,6 +73,7 @@ def tables(tier):
     b = S.base
     t = {"hb31": b(), "hb31_max": b(IsMin=False, MRA=False), "sh31": b(SysName="sh31", NT=4),
          "cust": b(SysName="cust", Vals={0, 1}), "hb421": b(SysName="hb421", NT=6, Vals={0, 1}),
+         "cust_max": b(SysName="cust", Vals={0, 1, 2}, IsMin=False, Faults=False),       # two promotions per rung, mode max
          "hb31_nofault": b(Faults=False, MaxRun=3, NT=6),
          # two failures in one rung: fewer valid results than slots in the next rung
          "cust_2f": b(SysName="cust", NT=5, Vals={0, 1}, MaxFaults=2, MaxRun=3),
@@ -99,6 +100,27 @@ def campaign_c13(rep, tier, seed):
         rep.model(f"SyncHB_MC[{name}]", r)
         g = gen(c, 14 if tier == "quick" else 20, 25 if tier == "quick" else 300, seed * 171 + len(name))
         cnt = drive_validate(rep, g.gen, c, FLAGS_C13, f"synchb-failures:{name}", seed * 1000 + 5, pid="C13")
+        for k, v in cnt.items():
+            total[k] = total.get(k, 0) + v
+    return total
+
+
+FLAGS_C20 = {"removable_but_resumable", "resume_after_removable", "scheduler_raised"}
+
+
+def campaign_c20(rep, tier, seed):
+    """trials_checkpoints_can_be_removed of synchronous Hyperband (what RemoveCheckpointsCallback deletes), judged under C20:
+    only trials that can never be resumed are declared removable -- both modes, one and two promotions per rung."""
+    total = {}
+    for name, c in {"hb31": S.base(), "cust_max": S.base(SysName="cust", Vals={0, 1, 2}, IsMin=False, Faults=False),
+                    "hb421_max": S.base(SysName="hb421", NT=6, Vals={0, 1, 2}, IsMin=False, MRA=False),
+                    "cust": S.base(SysName="cust", Vals={0, 1})}.items():
+        r = S.run_mc(c, ["RemovableOnlyNonPromoted"])
+        rep.model(f"SyncHB_MC[{name}]", r)
+        if r.violated:
+            rep.violation({"check": "mc", "invariant": r.violated, "config": name}, {"trace": tlc.short_trace(r, keys=("flags", "B", "st"))})
+        g = gen(c, 14 if tier == "quick" else 20, 25 if tier == "quick" else 300, seed * 191 + len(name))
+        cnt = drive_validate(rep, g.gen, c, FLAGS_C20, f"synchb-removable:{name}", seed * 1000 + 9, pid="C20")
         for k, v in cnt.items():
             total[k] = total.get(k, 0) + v
     return total
